@@ -25,10 +25,19 @@ def gen_case(rs, tier):
     cfg = gen.swarm(krng, tier)
     cfg["weights"] = cfg["weights"] and krng.random() < 0.5
     cfg["derived"] = 0
+    cfg["nest_small"] = True
     knobs = common.draw_knobs(krng, transports=("lib",))
     if krng.random() < 0.25:
         # associativity: three single-factor blocks
-        facs = [gencomb._basic(i, rng.choice([2, 2, 3])) for i in range(3)]
+        import math
+        for _ in range(6):
+            nl = [rng.choice([2, 2, 3]) for _ in range(3)]
+            # |V(Nest(a, Nest(b, c)))| = a! * (b!)^a * (c!)^(a*b): keep it within the exhaustion cap
+            if math.factorial(nl[0]) * math.factorial(nl[1]) ** nl[0] * math.factorial(nl[2]) ** (nl[0] * nl[1]) <= 300:
+                break
+        else:
+            nl = [2, 2, 2]
+        facs = [gencomb._basic(i, nl[i]) for i in range(3)]
         blocks = [gencomb._cross([f["id"]], [f["id"]], []) for f in facs]
         lhs = {"kind": "nest", "outer": blocks[0], "inner": {"kind": "nest", "outer": blocks[1], "inner": blocks[2], "constraints": [], "alignment": None}, "constraints": [], "alignment": None}
         rhs = {"kind": "nest", "outer": {"kind": "nest", "outer": blocks[0], "inner": blocks[1], "constraints": [], "alignment": None}, "inner": blocks[2], "constraints": [], "alignment": None}
@@ -176,6 +185,12 @@ def run_product(case):
                                   sum(N.values()), sum(exp.values()), json.dumps(dict(miss[0]))[:250] if miss else None, json.dumps(dict(extra[0]))[:250] if extra else None)))
         base = common.result_base(w, key=dast.skeleton(ast), nontrivial=len(rn) >= 2,
                                   summary={"design": dast.describe(ast), "outer": len(ro), "inner": len(ri), "nest": len(rn), "T": [To, Ti, Tn]})
+        # family tag: an inner run that is not a whole number of (weighted) crossing rounds - a region with a recorded defect
+        size_i = 1
+        for fid in nest["inner"].get("crossing", []):
+            size_i *= sum(w for _, w in fb[fid]["levels"]) if fb[fid]["kind"] == "basic" else sum(l.get("weight", 1) for l in fb[fid]["levels"])
+        tag = "/inner-partial-round" if nest["inner"]["kind"] == "cross" and size_i and Ti % size_i != 0 else ""
+        viols = [(sg + tag, dt) for sg, dt in viols]
         viol = common.pick_violation(PROP, viols)
         if viol:
             base.update(outcome="violation", signature=viol[0], detail=viol[1] + " ; design=" + dast.describe(ast))
